@@ -89,15 +89,18 @@ def r1_operator_tables(rule, root=None):
     # macro bodies
     mdefs = {m["def"]: m for m in A.find(A.load(TREE, root)["items"], "Macro") if m.get("def")}
     body = tok(mdefs["define_binary_fns"]["tokens"]) if "define_binary_fns" in mdefs else ""
-    want_td = "pubfntree_dyn(ctx:NativeCallContext,a:Tree,b:rhai::Dynamic,)->Result<Tree,Box<rhai::EvalAltResult>>{letb=Tree::from_dynamic(&ctx,b,None)?;Ok(a.$name(b))}"
-    want_dt = "pubfndyn_tree(ctx:NativeCallContext,a:rhai::Dynamic,b:Tree,)->Result<Tree,Box<rhai::EvalAltResult>>{leta=Tree::from_dynamic(&ctx,a,None)?;Ok(a.$name(b))}"
+    # parameter / local names are free (named groups); what is fixed is which operand is coerced and
+    # that the operator is applied as first.$name(second), the operands in source order
+    RES = r"->Result<Tree,Box<(?:rhai::)?EvalAltResult>>"
+    want_td = r"pubfntree_dyn\(ctx:NativeCallContext,(?P<a>\w+):Tree,(?P<b>\w+):rhai::Dynamic,?\)" + RES + r"\{let(?P<c>\w+)=Tree::from_dynamic\(&ctx,(?P=b),None\)\?;Ok\((?P=a)\.\$name\((?P=c)\)\)\}"
+    want_dt = r"pubfndyn_tree\(ctx:NativeCallContext,(?P<a>\w+):rhai::Dynamic,(?P<b>\w+):Tree,?\)" + RES + r"\{let(?P<c>\w+)=Tree::from_dynamic\(&ctx,(?P=a),None\)\?;Ok\((?P=c)\.\$name\((?P=b)\)\)\}"
     for what, frag in (("tree_dyn(a: Tree, b: dynamic) builds a.op(b)", want_td), ("dyn_tree(a: dynamic, b: Tree) builds a.op(b) (number on the left keeps source order)", want_dt)):
-        if frag in body:
+        if re.search(frag, body):
             rule.ok("define_binary_fns: %s" % what, file=TREE, line=mdefs["define_binary_fns"]["ln"])
         else:
             rule.bad("macro|bin|%s" % what[:8], "define_binary_fns: %s - the overload must coerce its dynamic operand and call a.$name(b) with operands in source order" % what, "%s:%d" % (TREE, mdefs.get("define_binary_fns", {}).get("ln", 0)))
     body = tok(mdefs["define_unary_fns"]["tokens"]) if "define_unary_fns" in mdefs else ""
-    if "leta=Tree::from_dynamic(&ctx,a,None)?;Ok(a.$name())" in body:
+    if re.search(r"pubfntree\(ctx:NativeCallContext,(?P<a>\w+):rhai::Dynamic,?\)->Result<Tree,Box<(?:rhai::)?EvalAltResult>>\{let(?P<c>\w+)=Tree::from_dynamic\(&ctx,(?P=a),None\)\?;Ok\((?P=c)\.\$name\(\)\)\}", body):
         rule.ok("define_unary_fns: coerces its operand and calls a.$name()")
     else:
         rule.bad("macro|un", "define_unary_fns must coerce its operand and call a.$name()", TREE)
@@ -167,8 +170,11 @@ def _value_steps(loop, skip_tree=False):
 
 
 def r2_sibling_builders(rule, root=None):
-    a = A.find_fn(SHAPES, "build_from_map", root=root)
-    b = A.find_fn(SHAPES, "build_transform", root=root)
+    a0 = A.find_fn(SHAPES, "build_from_map", root=root)
+    b0 = A.find_fn(SHAPES, "build_transform", root=root)
+    # read with same-file helpers expanded in place: a shared `field_from_map` is the same steps
+    a, b = dict(a0), dict(b0)
+    a["body"], b["body"] = A.inline_helpers(a0, keep=("build_tagged_value",)), A.inline_helpers(b0, keep=("build_tagged_value",))
     sa = _value_steps(_field_loop(a))
     sb = _value_steps(_field_loop(b), skip_tree=True)
     if sa == sb:
@@ -177,19 +183,26 @@ def r2_sibling_builders(rule, root=None):
         diff = [(x, y) for x, y in zip(sa, sb) if x != y][:1]
         rule.bad("siblings|fields", "build_transform (chained / tree-first form) and build_from_map (map form) build a field differently: %s - both forms of one constructor must honour defaults identically" % (diff or [(len(sa), len(sb))]), A.where(b))
     for fn in (a, b):
-        t = "".join(_value_steps(_field_loop(fn), skip_tree=True))
-        need = [
-            ("default computed from the field's own default fn", "letd=f.default.map(|df|unsafe{tag.build_from_default_fn(df)});"),
-            ("a given key is converted with the default as hint", "ifletSome(v)=m.get(f.name).cloned(){build_tagged_value(tag,&ctx,v,d)?}"),
-            ("an absent key falls back to the default", "elseifletSome(v)=d{v}"),
-            ("no value and no default is an error", "else{returnErr("),
-            ("the value lands in field i", "builder=v.put(builder,i);"),
-        ]
-        for what, frag in need:
-            if frag in t:
+        lt = txt(_field_loop(fn)["body"])
+        md = lt.fmatch("let$D=f.default.map(|$F|unsafe{tag.build_from_default_fn($F)});")
+        facts = [("default computed from the field's own default fn", md is not None)]
+        chain = None
+        if md is not None:
+            for alt in (
+                "ifletSome($V)=m.get(f.name).cloned(){build_tagged_value(tag,&ctx,$V,$D)?}elseifletSome($W)=$D{$W}else{returnErr(",
+                "ifletSome($V)=m.get(f.name).cloned(){build_tagged_value(tag,ctx,$V,$D)}elseifletSome($W)=$D{Ok($W)}else{Err(",
+                "ifletSome($V)=m.get(f.name).cloned(){build_tagged_value(tag,&ctx,$V,$D)}elseifletSome($W)=$D{Ok($W)}else{Err(",
+            ):
+                chain = lt.fmatch(alt, bind={"$D": md["$D"]})
+                if chain is not None:
+                    break
+        facts.append(("a given key is converted with the default as hint; an absent key falls back to the default; neither is an error", chain is not None))
+        facts.append(("the value lands in field i", lt.fmatch("builder=$X.put(builder,i);") is not None))
+        for what, okf in facts:
+            if okf:
                 rule.ok("%s: %s" % (fn["name"], what))
             else:
-                rule.bad("%s|%s" % (fn["name"], what[:20]), "%s: %s (`%s` not found)" % (fn["name"], what, frag[:50]), A.where(fn))
+                rule.bad("%s|%s" % (fn["name"], what[:20]), "%s: %s (not found in the per-field loop)" % (fn["name"], what), A.where(fn))
         tt = txt(fn["body"])
         if "forkinm.keys(){if!shape.fields.iter().any(|p|(p.name==k.as_str())){returnErr(" in tt:
             rule.ok("%s rejects unknown keys" % fn["name"])
@@ -223,8 +236,71 @@ def r2_sibling_builders(rule, root=None):
         rule.bad("build_binary", "build_binary must put its first argument into field 0 and its second into field 1", A.where(f))
 
 
+def _pat_matches_len(p, L):
+    """does a pattern over `array.len()` accept L?  -> (bool, name bound to the length or None)"""
+    k = p.get("k")
+    if k == "PLit":
+        return A.lit_value(p["lit"]) == L, None
+    if k == "POr":
+        return any(_pat_matches_len(x, L)[0] for x in A.flatten_or(p)), None
+    if k == "PIdent":
+        if p.get("sub"):
+            return _pat_matches_len(p["sub"], L)[0], p["name"]
+        return True, p["name"]
+    if k == "PWild":
+        return True, None
+    if k == "PRange":
+        lo = A.lit_value(p["start"]) if p.get("start") else None
+        hi = A.lit_value(p["end"]) if p.get("end") else None
+        return (lo is None or lo <= L) and (hi is None or (L <= hi if p.get("closed") else L < hi)), None
+    raise ValueError("pattern %s" % A.unparse(p))
+
+
+def _vec_fields_for_len(fn, L):
+    """{field: text of the expression that ends up in it} for an array of length L"""
+    ms = [m for m in A.find(fn["body"], "Match") if str(txt(m["e"])) == "array.len()"]
+    if len(ms) != 1:
+        raise ValueError("no `match array.len()`")
+    for arm in ms[0]["arms"]:
+        okp, nm = _pat_matches_len(arm["pat"], L)
+        if not okp:
+            continue
+        env = {nm: L} if nm else {}
+        lets = {}
+        for s_ in A.stmts_of(arm["body"]):
+            if s_.get("k") == "Let" and A.binding_name(s_["pat"]):
+                lets[A.binding_name(s_["pat"])] = s_["init"]
+
+        def val(e):
+            e = A.strip(e)
+            if A.ident(e) in lets:
+                return val(lets[A.ident(e)])
+            if e.get("k") == "If" and e.get("else") is not None:
+                c = A.strip(e["cond"])
+                if c.get("k") == "Binary" and c["op"] in ("==", "!=", "<", ">", "<=", ">="):
+                    l, r = A.strip(c["left"]), A.strip(c["right"])
+                    lv = env.get(A.ident(l), A.lit_value(l))
+                    rv = env.get(A.ident(r), A.lit_value(r))
+                    if lv is None or rv is None:
+                        raise ValueError("condition %s" % A.unparse(c))
+                    t_ = {"==": lv == rv, "!=": lv != rv, "<": lv < rv, ">": lv > rv, "<=": lv <= rv, ">=": lv >= rv}[c["op"]]
+                    br = e["then"] if t_ else e["else"]
+                    br = A.strip(br)
+                    if br.get("k") == "Block":
+                        br = A.stmt_expr(br["stmts"][-1])
+                    return val(br)
+                raise ValueError("condition %s" % A.unparse(c))
+            return str(txt(e))
+
+        st = [x for x in A.find(arm["body"], "Struct") if (A.path_segs(x["path"]) or [None])[-1] in ("Vec3", "Vec2", "Self")]
+        if len(st) != 1:
+            raise ValueError("no single Vec literal in the arm for length %d" % L)
+        return {x["name"]: val(x["e"]) for x in st[0]["fields"]}
+    raise ValueError("no arm accepts length %d" % L)
+
+
 def r3_coercions(rule, root=None):
-    for name, comps in (("vec2_from_rhai_array", "xy"), ("vec3_from_rhai_array", "xyz")):
+    for name, comps in (("vec2_from_rhai_array", "xy"),):
         f = A.find_fn(TYPES, name, root=root)
         t = txt(f["body"])
         ok = True
@@ -235,12 +311,27 @@ def r3_coercions(rule, root=None):
             rule.ok("%s: array element i becomes component %s" % (name, "/".join(comps)), file=TYPES, line=f["ln"])
         else:
             rule.bad("array|%s" % name, "%s must read component %s from array element %s" % (name, list(comps), list(range(len(comps)))), A.where(f))
+    # vec3 from a 2- or 3-element array, per length (however the arms are split or merged):
+    #   x, y from elements 0, 1; z from element 2 when there are three, from the default otherwise
     f = A.find_fn(TYPES, "vec3_from_rhai_array", root=root)
-    t = txt(f["body"])
-    if "2=>{letx=f32::from_dynamic(ctx,array[0].clone(),None)?;lety=f32::from_dynamic(ctx,array[1].clone(),None)?;letz=default.map(|d|d.z).unwrap_or(0.0);Ok(Vec3{x:x,y:y,z:z})}" in t:
+    got = {}
+    for L in (2, 3):
+        try:
+            got[L] = _vec_fields_for_len(f, L)
+        except (KeyError, ValueError, TypeError, IndexError, AttributeError) as e:
+            got[L] = {"error": str(e)}
+    el = lambda i: "f32::from_dynamic(ctx,array[%d].clone(),None)?" % i
+    dz = re.compile(r"default\.map\(\|(\w+)\|\1\.z\)\.unwrap_or\(0\.0\)")
+    ok3 = got[3].get("x") == el(0) and got[3].get("y") == el(1) and got[3].get("z") == el(2)
+    ok2 = got[2].get("x") == el(0) and got[2].get("y") == el(1) and bool(dz.fullmatch(got[2].get("z", "")))
+    if ok3:
+        rule.ok("vec3 from a 3-element array: element i becomes component x/y/z")
+    else:
+        rule.bad("array|vec3|three", "a 3-element array must give (array[0], array[1], array[2]); found %s" % got[3], A.where(f))
+    if ok2:
         rule.ok("a 2-element array promoted to Vec3 takes z from the field's default (else 0)")
     else:
-        rule.bad("array|vec3|promote", "a 2-element array promoted to a Vec3 must take z from the default", A.where(f))
+        rule.bad("array|vec3|promote", "a 2-element array promoted to a Vec3 must take x, y from its elements and z from the default; found %s" % got[2], A.where(f))
     d = A.load(TYPES, root)
     fd = {(f.get("_owner") or {}).get("self_ty"): f for f in d["_fns"] if f["name"] == "from_dynamic" and not f["_test"]}
     v3 = fd.get("Vec3")
@@ -337,7 +428,7 @@ def r3_coercions(rule, root=None):
 def run(ctx):
     r = ctx.rule("R1", "operators and functions are registered to their namesake, both operand orders, operands in source order; comparisons rejected", 69)
     ctx.guarded(r, r1_operator_tables)
-    r = ctx.rule("R2", "the map form and the chained form of a constructor honour defaults identically", 16)
+    r = ctx.rule("R2", "the map form and the chained form of a constructor honour defaults identically", 12)
     ctx.guarded(r, r2_sibling_builders)
     r = ctx.rule("R3", "coercions: array index -> component, vec2 -> vec3 takes z from the default, names -> namesakes", 12)
     ctx.guarded(r, r3_coercions)
